@@ -23,7 +23,7 @@ NT = 4           # epigraph variables
 def _ro_run(events, how='eco'):
     """Execute ro events.  Returns (status tuple in min-form, nops)."""
     R = C.R
-    rso, ro = R['rso'], R['ro']
+    ro = R["ro"]
     m = ro.Model()
     t = m.dvar(NT)
     z = m.rvar(2)
